@@ -192,6 +192,33 @@ func (p *Program) c07Delayed(site ssa.Instruction, list ssa.Value, depth int) (b
 			return true, "guarded by " + p.describeFact(f) + ": " + note
 		}
 	}
+	// the delay loop may be spelled with the standard library's search functions
+	// (`if slices.ContainsFunc(list, func(os) bool { return os.GetRevision() == 0 }) { return }`,
+	// `if slices.IndexFunc(list, …) >= 0 { return }`): the site is reached only when the search
+	// examined every element and accepted none, and the predicate rejects an element only when its
+	// revision is not 0.
+	for _, f := range p.FactsAtX(site.Block()) {
+		sl, pred, isSearch := rvSearchNotFound(f)
+		if !isSearch || !rvIsAccessorSlice(sl.Type()) {
+			continue
+		}
+		if list != nil && !p.sameValue(sl, list) {
+			why += " / a search over a different list precedes it"
+			continue
+		}
+		okp, w := p.rvPredRejectsOnly(pred, func(pf Fact, elem ssa.Value) bool {
+			x, trueMeansZero, okz := rvZeroTest(pf.Cond)
+			if !okz || trueMeansZero == pf.Pol {
+				return false
+			}
+			recv, _, okm := rvMethodOn(x, "GetRevision")
+			return okm && stripConv(recv) == elem
+		})
+		if okp {
+			return true, "guarded by " + p.describeFact(f) + ": the search over " + p.describe(sl) + " rejects an element only when its GetRevision() != 0"
+		}
+		why += " / search predicate " + shortFuncID(pred) + ": " + w
+	}
 	if depth <= 0 {
 		return false, why + " in " + shortFuncID(fn)
 	}
@@ -967,6 +994,13 @@ func c07r4(c *Ctx) {
 		nReuse, nBump := 0, 0
 		for _, rc := range p.returnCases(fn) {
 			if !after[rc.Ret] || len(rc.Results) != 2 {
+				continue
+			}
+			// a return behind contradictory facts (`if false { … return }`) never executes: the
+			// normaliser's tail duplication copies the statements that follow a merged boolean helper
+			// once per helper return, and the copy made for a `return false` keeps the reuse branch as
+			// dead code
+			if pfDeadByFacts(rc.Facts) {
 				continue
 			}
 			// the reuse test may be materialised in an extracted boolean helper
